@@ -51,7 +51,7 @@ class FCN(Harness):
                        "chart following / contrarian, fixed and normal margin, accessible and inaccessible market",
               "thorough": "same"}
     reach = ("nontrivial", "buy", "sell", "no-order", "window-clamped")
-    stubs = ("pams.agents.fcn_agent.math -> contract stub (log/exp: sign, strict monotonicity, functional)",
+    stubs = ("pams.agents.fcn_agent.math -> contract stub (log: defined for x > 0; exp: positive; values otherwise arbitrary)",
              "agent prng.gauss -> solver real")
     outside = ("numerical values of log / exp / gauss",)
     agreement_runs = 6
@@ -67,7 +67,10 @@ class FCN(Harness):
         return out
 
     def run(self, g, case):
-        stub = MathStub(g, pairwise=False)     # sign contract only: keeps the queries (almost) linear
+        # exp(x) > 0 and the domain of log are the only facts used: 'buys exactly when the expected future price
+        # exceeds the market price' is decided on expected = price x EXP(exponent) itself; the exponent is checked
+        # as a polynomial identity
+        stub = MathStub(g, pairwise=False, signs=False)
         old = FA.math
         FA.math = stub
         try:
@@ -170,7 +173,10 @@ class MarketShareFCN(Harness):
                 for a in ("all", "not-first")]
 
     def run(self, g, case):
-        stub = MathStub(g, pairwise=False)     # sign contract only: keeps the queries (almost) linear
+        # exp(x) > 0 and the domain of log are the only facts used: 'buys exactly when the expected future price
+        # exceeds the market price' is decided on expected = price x EXP(exponent) itself; the exponent is checked
+        # as a polynomial identity
+        stub = MathStub(g, pairwise=False, signs=False)
         old = FA.math
         FA.math = stub
         try:
